@@ -214,6 +214,17 @@ def test_crash():
     return 0 if ok else 1
 
 
+def test_watchdog():
+    """A case stuck where the in-process timer cannot fire is ended by the
+    parent and reported as `timeout`."""
+    import importlib
+    from vlib import runner
+    mod = importlib.import_module('vlib.props.zz_selftest')
+    res = list(runner.run_tasks('zz_selftest', mod, [mod.stuck_shards()], 1))
+    kinds = [v['kind'] for r in res for v in r['viol']]
+    return 0 if kinds == ['timeout'] else 1
+
+
 def main():
     rnd = random.Random(int(os.environ.get('VERIF_SEED', '0')))
     res = dict(
@@ -222,6 +233,7 @@ def main():
         c99_division=test_fmodel(rnd),
         case_timeout_is_cpu_time=test_timeout(),
         dying_worker_is_reported=test_crash(),
+        stuck_worker_is_ended=test_watchdog(),
         scc_criterion_vs_spin=test_spin(rnd))
     for k, v in res.items():
         print(f'{k}: ' + ('skipped (tool missing)' if v is None
